@@ -6,4 +6,14 @@ CLAIMS = {
   design_ref="§7 C15, §4.1",
   note="Trusted: Lean kernel + 3 standard axioms; the differential harness (rh, tools/c15.py). canonicalize (symlink resolution) is the OS's and enters as a parameter. One-record/one-lock/one-build for two spellings on a command line is covered by the process-level scenarios (see evidence) — the known panic for `redo a ./a` is a recorded finding.",
   technique="Lean 4 proof (structural induction over the clean-up loop's output stack) + exhaustive small-alphabet differential correspondence"),
+ "C13": dict(
+  text="Lean theorems about the executable model of possible_do_files / DefaultDoFiles / path_splits and of the $1/$2/$3 construction: first candidate is <name>.do, completeness of (ancestor directory x dot-suffix) candidates plus default.do, $1 = $2 ++ ext, and redo-whichdo/find_do_file list exactly the prefix of candidates up to the first existing one. Tied to /repo by an in-process differential check of the whole candidate list (with arguments) over all names on {a . _}^<=5 x directory spellings (+unicode/space names), and at process level by placing a script at candidate positions and comparing redo-whichdo output, echoed $1/$2/$3/cwd and re-selection after adding/removing a higher-priority script.",
+  design_ref="§7 C13, §4.2",
+  note="Trusted: Lean kernel + 3 standard axioms; rh and tools/c13.py; file existence is a parameter of the model. The root path `/` has no final component and is rejected by both sides (guard stated in DESIGN).",
+  technique="Lean 4 proof (list induction) over an executable model + differential correspondence (in-process and process-level)"),
+ "C18": dict(
+  text="Lean theorems about the record syntax: parse(format r) = r for every kind without ':', '@', newline, every canonical pid/timestamp token and every newline-free text; done-text round trip for any name; validity of written lines; the record syntax constants are re-extracted from src/logs.rs on every run. The replay function catlog is modelled executably (recursion through do/unchanged/waiting records, the `already` set, resumed markers, clean_line). Tied to /repo by: in-process differential of Meta::parse/Display/parse_done_text on a seeded grammar incl. malformed lines; synthetic log forests written into a real .redo and replayed by the real redo-log -r/-u versus the model; live builds at several -j whose numbered/partial/70kB lines must appear once, in order, under their target in live output and replay.",
+  design_ref="§7 C18, §4.3",
+  note="Trusted: Lean kernel + 3 standard axioms; rh, tools/c18.py. Timestamps are opaque canonical tokens. The --follow loop is exercised on the implementation only (live monitor), not proven. Known finding: a stderr line with record syntax is consumed as a record.",
+  technique="Lean 4 proof (list lemmas on the record grammar) + differential correspondence and synthetic-forest replay against the real redo-log"),
 }
